@@ -236,13 +236,16 @@ _SPAN_RX = re.compile(r"^(tok\d+)\.(start|end)$")
 LAYOUT_VARS = ("input.len",)
 
 
-def layout_support(t, cache):
+def layout_support(t, cache, top=True):
     """Names of layout-dependent variables (token positions, source length) that term t depends on, other than
-    through text_of_span(tokI.start, tokI.end) - the text of token I."""
+    through text_of_span(tokI.start, tokI.end) - the text of token I.
+    Only whole conjuncts are cached, together with the term itself (z3 reuses the ids of freed terms, so an id is a
+    valid key only while its term is alive); the cache is emptied when it grows large."""
     tid = t.get_id()
-    r = cache.get(tid)
-    if r is not None:
-        return r
+    if top:
+        ent = cache.get(tid)
+        if ent is not None:
+            return ent[1]
     r = frozenset()
     if z3.is_app(t):
         d = t.decl()
@@ -257,13 +260,16 @@ def layout_support(t, cache):
             if ma and mb and ma.group(1) == mb.group(1) and ma.group(2) == "start" and mb.group(2) == "end":
                 r = frozenset()
             else:
-                r = layout_support(a, cache) | layout_support(b, cache)
+                r = layout_support(a, cache, False) | layout_support(b, cache, False)
         else:
             acc = set()
             for i in range(t.num_args()):
-                acc |= layout_support(t.arg(i), cache)
+                acc |= layout_support(t.arg(i), cache, False)
             r = frozenset(acc)
-    cache[tid] = r
+    if top:
+        if len(cache) > 200000:
+            cache.clear()
+        cache[tid] = (t, r)
     return r
 
 
@@ -302,12 +308,21 @@ def span_hook(state, m=None, fn=None):
             eng.focus(None)
             line0 = eng.scalar(eng.field(eng.deref(initial(fn, 1)), m.fidx("Parser", "line"), "usize"))
             line_name = line0.decl().name()
-            exempt = z3.ULT(line0, bv64(1 << 40)).get_id()     # the harness's own bound on the starting line
+            exempt_term = z3.ULT(line0, bv64(1 << 40))          # the harness's own bound on the starting line
+            state["_keep"] = exempt_term                        # (kept alive: its id must stay its own)
+            exempt = exempt_term.get_id()
 
-        def line_dep(c, lc={}):
-            """does branch condition c mention the starting line?"""
+        lc = {}
+
+        def line_dep(c):
+            """does branch condition c mention the starting line?  (cache: whole conjuncts, kept alive with their id)"""
             if line_name is None or c.get_id() == exempt:
                 return False
+            ent = lc.get(c.get_id())
+            if ent is not None:
+                return ent[1]
+            if len(lc) > 200000:
+                lc.clear()
             stack = [c]
             seen = set()
             while stack:
@@ -316,10 +331,6 @@ def span_hook(state, m=None, fn=None):
                 if i in seen:
                     continue
                 seen.add(i)
-                if i in lc:
-                    if lc[i]:
-                        return True
-                    continue
                 if z3.is_const(t) and t.decl().kind() == z3.Z3_OP_UNINTERPRETED and t.decl().name() == line_name:
                     # a condition that the harness's bound on the starting line already implies (the overflow check
                     # of `line += 1` in the dev profile) is no dependence
@@ -327,10 +338,10 @@ def span_hook(state, m=None, fn=None):
                     sv.set("timeout", 10000)
                     sv.add(z3.ULT(line0, bv64(1 << 40)), z3.Not(c))
                     r = sv.check() != z3.unsat
-                    lc[c.get_id()] = r
+                    lc[c.get_id()] = (c, r)
                     return r
                 stack.extend(t.children())
-            lc[c.get_id()] = False
+            lc[c.get_id()] = (c, False)
             return False
 
         def hook(p):
